@@ -26,7 +26,7 @@ def prog_text(pid, prog):
 
 
 def vx_binary():
-    return common.build_harness("vx", ["vx/vx.cpp"], extra=["-rdynamic"])
+    return common.build_harness("vx", ["vx/vx.cpp"], libs=["-rdynamic"])
 
 
 def parse_out(path):
